@@ -27,6 +27,8 @@ Checks (one per clause, so one red clause does not hide the others)
   C11/apply-target-encoding      DEC graphics -> alternate-charset byte with a "0" run; run lengths = length; under
                                  every ordered pair / triple of set_encoding calls (the encoding state is process-global:
                                  the answer must depend on the LAST encoding only)
+  C11/encoded-width              a str and its apply_target_encoding form are equally wide; every run (1..4, every width
+                                 class, mixed) of characters the target encoding lacks keeps its width
   C11/encoding-switch            byte mode and output codec after every such sequence = those documented for the last
 
 Oracle decisions
@@ -170,11 +172,17 @@ class Enc:
 
 
 def tx(text):
-    """JSON-able form of a text"""
-    return {"bytes_hex": text.hex()} if isinstance(text, bytes) else {"str": text}
+    """JSON-able form of a text (a str with lone surrogates -- not writable as UTF-8 -- as its code points)"""
+    if isinstance(text, bytes):
+        return {"bytes_hex": text.hex()}
+    if any(0xD800 <= ord(c) <= 0xDFFF for c in text):
+        return {"codepoints": [ord(c) for c in text]}
+    return {"str": text}
 
 
 def untx(d):
+    if "codepoints" in d:
+        return "".join(chr(c) for c in d["codepoints"])
     return bytes.fromhex(d["bytes_hex"]) if "bytes_hex" in d else d["str"]
 
 
@@ -873,6 +881,172 @@ def check_ate(K, maxlen, targets=None, depth=2, deep_maxlen=1):
 
 
 # ---------------------------------------------------------------------------------------------
+# the encoded form is as wide as the str (C11/encoded-width)
+#
+# "For every string and its encoded byte form under the active encoding ... the computed display width ...
+# agree": the text layout computes columns on the str, the screen receives apply_target_encoding's bytes.  What
+# can break this is a character the target encoding LACKS: the codec hands the error handler a run
+# s[start:end] -- ONE character per call for utf-8 and the multi-byte CJK codecs, the whole RUN of consecutive
+# lacking characters for the single-byte ones (ascii, latin-1, charmap codecs such as koi8-r) -- and writes the
+# handler's stand-in for the run.  So the inputs here are built around RUNS: every sequence of 1..4 lacking
+# characters over two representatives of every width class (one column, two columns, zero width; mixed runs
+# included) that the encoding lacks, alone / after, before and between characters the encoding has (ASCII, a DEC
+# graphics character, a native non-ASCII character) / two runs separated by one encodable character.
+
+# candidates by width class (the class is asserted against the width table; which of them an encoding lacks is
+# asked of the codec, not of urwid); lone surrogates are what utf-8 itself can not encode
+ENCW_POOL = (
+    (1, ("\xe9", "π", "ж", "ק", "ā", "€", "\ud800", "\udfff")),
+    (2, ("中", "한", "あ", "\U0001f600", "Ａ")),
+    (0, ("́", "​", "҃", "ְ")),
+)
+ENCW_PER_CLASS = 2
+ENCW_MAXRUN = 4
+# characters every run is put between; kept when the encoding has them AND their own encoded form is as wide as
+# the character in the encoding's byte mode (see encw_own_width)
+ENCW_NATIVE = ("中", "\xe9", "ж", "─", "́")
+
+
+def encw_own_width(b, tag, mode, w):
+    """Columns of the encoded form `b` of ONE encodable character of table width w, by the byte mode's definition
+    (not urwid's code): a DEC graphics byte and every byte of an 8-bit encoding is one column; in a double-byte
+    encoding one byte < 0x80 is one column, a lead+trail pair two; the UTF-8 form of a scalar has the scalar's
+    width.  None: not the form of one character in that mode (euc-jp 8E/8F single shifts)."""
+    if tag == "0" or mode == "narrow":
+        return len(b)
+    if mode == "utf8":
+        return w
+    if len(b) == 1 and b[0] < 0x80:
+        return 1
+    if len(b) == 2 and R.dbcs_is_lead(b[0]) and R.dbcs_is_trail(b[1]):
+        return 2
+    return None
+
+
+def encw_lacking(codec):
+    """The lacking alphabet of a codec: up to ENCW_PER_CLASS characters of every width class it can not encode."""
+    wt = _wt()
+    out = []
+    for w, pool in ENCW_POOL:
+        n = 0
+        for ch in pool:
+            if wt[ord(ch)] != w:
+                raise RuntimeError(f"U+{ord(ch):04X} is not of width class {w} in the tables")
+            try:
+                ch.encode(codec)
+            except UnicodeEncodeError:
+                if n < ENCW_PER_CLASS:
+                    out.append(ch)
+                    n += 1
+    return tuple(out)
+
+
+def encw_texts(codec, mode, maxrun, pairrun=2):
+    wt = _wt()
+    dec = mode != "utf8"
+    lack = encw_lacking(codec)
+    natives = []
+    for ch in ENCW_NATIVE:
+        (b, tag), = R.ref_target_segments(ch, codec, dec)
+        if b is not None and encw_own_width(b, tag, mode, wt[ord(ch)]) == wt[ord(ch)]:
+            natives.append(ch)
+    runs = ["".join(p) for n in range(1, maxrun + 1) for p in itertools.product(lack, repeat=n)]
+    short = [r for r in runs if len(r) <= pairrun]
+    texts = []
+    for r in runs:
+        texts += [r, "a" + r, r + "b", "a" + r + "b"]
+        texts += [n + r + n for n in natives]
+    for r1 in short:
+        for r2 in short:
+            texts.append(r1 + "a" + r2)
+            texts += [n + r1 + n + r2 for n in natives[:1]]
+    return lack, natives, texts
+
+
+def one_encw(enc, codec, mode, s, history):
+    """(verdict, detail): verdict True / False / None (not judged: the text holds an ENCODABLE character whose own
+    encoded form already differs in width -- a fact of codec and byte mode, nothing a stand-in could repair)."""
+    wt = _wt()
+    dec = mode != "utf8"
+    segs = R.ref_target_segments(s, codec, dec)
+    d = {"encoding": enc, "codec": codec, "text": tx(s), "fn": "apply_target_encoding", "history": list(history)}
+    widths = [wt[ord(ch)] for ch in s]
+    for (b, tag), w in zip(segs, widths):
+        if b is not None and encw_own_width(b, tag, mode, w) != w:
+            return None, d
+    want_cols = sum(widths)
+    # per maximal run of lacking characters: its columns
+    runs = []
+    for (b, _tag), w in zip(segs, widths):
+        if b is None:
+            if runs and runs[-1][0]:
+                runs[-1][1] += w
+            else:
+                runs.append([True, w])
+        elif not runs or runs[-1][0]:
+            runs.append([False, 0])
+    try:
+        got_b, got_cs = util.apply_target_encoding(s)
+        w_str = str_util.calc_width(s, 0, len(s))
+        w_enc = str_util.calc_width(got_b, 0, len(got_b))
+    except Exception as e:  # noqa: BLE001
+        return False, d | {"raised": type(e).__name__, "why": f"raised {type(e).__name__}: {e}"[:300], "cat": "raised"}
+    d |= {"got": [got_b.hex(), [list(r) for r in got_cs]], "str_width": w_str, "encoded_width": w_enc, "table_width": want_cols,
+          "lacking_runs_columns": [c for lk, c in runs if lk]}
+    if w_str != want_cols:
+        return False, d | {"why": "calc_width of the str differs from the sum of the characters' table widths"}
+    if w_enc != w_str:
+        return False, d | {"why": "the encoded byte form is not as wide as the str (calc_width under the encoding's byte mode)", "cat": f"{enc}: encoded form " + ("narrower" if w_enc < w_str else "wider") + " than the str"}
+    if sum(r[1] for r in got_cs) != len(got_b):
+        return False, d | {"why": "total run length differs from the encoded length"}
+    # every run keeps ITS width (a prefix of the text is a text too): stand-ins are matched as runs of '?'
+    pos = 0
+    per_run = []
+    for b, _tag in segs:
+        if b is None:
+            if per_run and per_run[-1][0] == pos:
+                continue
+            n = 0
+            while pos < len(got_b) and got_b[pos] == 0x3F:
+                pos += 1
+                n += 1
+            per_run.append((pos, n))
+        else:
+            if got_b[pos : pos + len(b)] != b:
+                per_run = None
+                break
+            pos += len(b)
+    if per_run is not None and pos == len(got_b):
+        got_runs = [n for _p, n in per_run]
+        if got_runs != d["lacking_runs_columns"]:
+            return False, d | {"stand_in_columns": got_runs, "why": "a run of characters the encoding lacks is replaced by a stand-in that is not as wide as that run (the total happens to agree)"}
+    return True, d
+
+
+def check_encw(K, maxrun, targets=None):
+    """C11/encoded-width for every encoding of the table, reached directly and from UTF-8 (the state a process
+    started under a UTF-8 locale is in)."""
+    chk = K["encoded-width"]
+    with Enc():
+        for enc, codec, mode in ATE_ENCODINGS:
+            if targets is not None and enc not in targets:
+                continue
+            lack, natives, texts = encw_texts(codec, mode, maxrun)
+            note = chk.notes.setdefault("lacking alphabet / natives", {})
+            note[enc] = " ".join(f"U+{ord(c):04X}" for c in lack) + " / " + " ".join(f"U+{ord(c):04X}" for c in natives)
+            for hist in ((enc,), ("utf-8", enc)):
+                switch_encoding(hist)
+                for s in texts:
+                    ok, d = one_encw(enc, codec, mode, s, hist)
+                    if ok is None:
+                        chk.notes["not judged: an encodable character's own encoded form differs in width"] = chk.notes.get("not judged: an encodable character's own encoded form differs in width", 0) + 1
+                    elif ok:
+                        chk.passed((hist, s), 1, {"history": list(hist), "text": repr(s), "got": d["got"][0]})
+                    else:
+                        chk.fail((hist, s), d)
+
+
+# ---------------------------------------------------------------------------------------------
 # driver
 
 CLAUSES = {
@@ -893,6 +1067,7 @@ CLAUSES = {
     "invalid-double-byte/no-exception": "wide mode, texts with lone lead bytes / stray high bytes: nothing raises",
     "invalid-double-byte/functions-agree": "wide mode, texts with lone lead bytes / stray high bytes: the same mutual agreement; offsets stay inside [start,end]",
     "apply-target-encoding": "apply_target_encoding(str) after every sequence of set_encoding calls: every DEC graphics character -> its alternate-charset byte inside a '0' run (for every encoding set last but UTF-8, whatever was set before), other characters -> their encoding in None runs; sum of runs = len(bytes)",
+    "encoded-width": "a str and apply_target_encoding(str) have the same computed display width (calc_width of the str = sum of table widths = calc_width of the bytes under the encoding's byte mode); every RUN of characters the target encoding lacks is replaced by a stand-in exactly as wide as that run",
     "encoding-switch": "after every sequence of set_encoding calls the byte mode (utf8 / wide / narrow) and the output codec are the ones documented for the LAST encoding",
 }
 
@@ -998,6 +1173,8 @@ def do_task(task):
             run_raw_dbcs(K, task[1], task[2], task[3], task[4])
         elif kind == "ate":
             check_ate(K, task[1], (task[2],), task[3], task[4])
+        elif kind == "encw":
+            check_encw(K, task[1], (task[2],))
         elif kind == "random":
             run_group(K, GROUPS[task[2]], 0, random_texts(task[1], task[2]), task[3], task[4])
         else:
@@ -1014,6 +1191,8 @@ def plan(tier, seed):
     tasks = [("tables",), ("codecs",)]
     # apply_target_encoding: one task per encoding set last; pairs (previous, last) with all texts, triples with short ones
     tasks += [("ate", 3 if quick else 4, e, 3, 1 if quick else 2) for e, _c, _m in ATE_ENCODINGS]
+    # the encoded form keeps the str's width: one task per encoding, runs of <= 4 lacking characters
+    tasks += [("encw", ENCW_MAXRUN if quick else ENCW_MAXRUN + 1, e) for e, _c, _m in ATE_ENCODINGS]
     tasks += [("scalars", i, 8) for i in range(8)]
     for gi, g in enumerate(GROUPS):
         n = sum(len(g[3]) ** k for k in range(lens[g[0]] + 1))
@@ -1056,6 +1235,9 @@ def run(tier="quick", seed=0, procs=None):
                                        f"{len(ATE_ALPHA)} characters (ASCII, Latin-1, CJK, 5 DEC graphics, space), 3 byte strings]; every ordered TRIPLE x [the DEC characters alone, strings of <= {ate_deep}, 3 byte strings]")
     tmp_bound = "; every ordered pair with util.set_temporary_encoding (inside the context, and after leaving it)"
     bounds["apply-target-encoding"] += tmp_bound + " x [every DEC graphics character alone and between two letters]"
+    bounds["encoded-width"] = (f"encodings {ate_names}, each set directly and after utf-8: every RUN of 1..{ENCW_MAXRUN if quick else ENCW_MAXRUN + 1} characters the codec lacks over <= {ENCW_PER_CLASS} representatives per width class "
+                               "(one column, two columns, zero width; for utf-8: lone surrogates) -- alone, after 'a', before 'b', between 'a' and 'b', between two native characters "
+                               f"(CJK / Latin-1 / Cyrillic / a DEC graphics character / a combining mark, as the encoding has them); every pair of runs of <= 2 separated by one encodable character")
     bounds["encoding-switch"] = f"encodings {ate_names}: every ordered pair and every ordered triple of set_encoding calls" + tmp_bound
     K = make_checks(bounds=bounds)
     rb = f"{RANDOM_PER_GROUP} seeded random texts of {RANDOM_LEN[0]}..{RANDOM_LEN[1]} characters per encoding group ({len(GROUPS)} groups), as str and bytes"
@@ -1108,6 +1290,11 @@ def replay(check_name, case):
                 switch_encoding(hist, stack)
                 ok, d = one_ate(case["encoding"], case["codec"], untx(case["text"]), hist)
             return {"outcome": "not-reproduced" if ok else "confirmed", "detail": d}
+        if clause == "encoded-width":
+            hist = tuple(case["history"])
+            switch_encoding(hist)
+            ok, d = one_encw(case["encoding"], case["codec"], ATE_BY_NAME[case["encoding"]][1], untx(case["text"]), hist)
+            return {"outcome": "confirmed" if ok is False else "not-reproduced", "detail": d}
         if clause == "encoding-switch":
             import contextlib
 
